@@ -1,6 +1,7 @@
 package main
 
 import (
+	"bytes"
 	"crypto"
 	"crypto/ecdsa"
 	"crypto/ed25519"
@@ -94,7 +95,7 @@ func keyRoundTrip(c J) J {
 			k2 = cose.Key{Type: cose.KeyTypeOKP, ID: []byte("old"), Algorithm: cose.AlgorithmEdDSA, Ops: []cose.KeyOp{cose.KeyOpVerify}, BaseIV: []byte{7},
 				Params: map[any]any{int64(-1): cose.CurveEd25519, int64(-2): make([]byte, 32), "old": int64(1)}}
 		}
-		if err := k2.UnmarshalCBOR(b); err != nil {
+		if err := viaRecv(b, k2.UnmarshalCBOR); err != nil {
 			perr = err
 			ev["stage"] = "UnmarshalCBOR"
 			return
@@ -128,8 +129,20 @@ func keyRoundTrip(c J) J {
 			return
 		}
 		ev["cborpub"] = ints(bp)
+		// a parsed key kept by value stays equal to what was parsed when the variable it came from is parsed into again
+		ev["copystable"] = true
+		{
+			var kv cose.Key
+			if viaRecv(b, kv.UnmarshalCBOR) == nil {
+				kept := kv
+				before, e1 := kept.MarshalCBOR()
+				_ = viaRecv(bp, kv.UnmarshalCBOR)
+				after, e2 := kept.MarshalCBOR()
+				ev["copystable"] = e1 == nil && e2 == nil && bytes.Equal(before, after)
+			}
+		}
 		var kp2 cose.Key
-		if err := kp2.UnmarshalCBOR(bp); err != nil {
+		if err := viaRecv(bp, kp2.UnmarshalCBOR); err != nil {
 			perr = err
 			ev["stage"] = "UnmarshalCBOR(public)"
 			return
